@@ -31,7 +31,8 @@ HANDLE = struct.pack("<I", 7) + bytes(range(16))
 
 def tower(i: int, residue: int, tcp_at: t.Optional[str]) -> t.List[epm.Floor]:
     """tower #i with total octet length == residue (mod 8); tcp_at in None|'3'|'0'|'last'"""
-    port = 49664 + i
+    # distinct ports in an order that is neither ascending nor descending, numerically or modulo any small power of two
+    port = [49670, 49672, 49667, 49675, 50001, 49152, 135, 49664][i % 8] + 8 * (i // 8)
     base: t.List[epm.Floor] = [epm.uuid_floor(rpc.ISD_KEY), epm.uuid_floor(rpc.NDR), epm.rpc_co_floor(0)]
     others: t.List[epm.Floor] = [(epm.P_UDP, b"", struct.pack(">H", 500 + i)), epm.ip_floor(0x0A000001 + i), (epm.P_PIPE, b"", b"\\pipe\\x\x00")][: 1 + i % 3]
     tcp = epm.tcp_floor(port)
@@ -70,12 +71,17 @@ def gen_lists(tier: str) -> t.Iterator[t.Tuple[t.List[int], t.Tuple[int, ...], s
         else:
             res_iter = [tuple((s + 3 * j) % 8 for j in range(n)) for s in range(8)]
         for residues in res_iter:
-            placements = [(), (0,), (1,), (n - 1,), (1, n - 1)] if n else [()]
+            seen_pl: t.Set[t.Tuple[int, ...]] = set()
+            placements = [(), (0,), (1,), (n - 1,), (1, n - 1), (0, 1), (0, n - 1), tuple(range(n))] if n else [()]
             for tcp_towers in placements:
                 if any(k >= n or k < 0 for k in tcp_towers):
                     continue
+                key = tuple(sorted(set(tcp_towers)))
+                if key in seen_pl:
+                    continue
+                seen_pl.add(key)
                 for pos in ("3", "0", "last") if tcp_towers else ("3",):
-                    yield list(residues), tuple(sorted(set(tcp_towers))), pos
+                    yield list(residues), key, pos
 
 
 _st: t.Dict[str, t.Any] = {}
